@@ -11,6 +11,13 @@ def gen(ctx):
     for _ in range(ctx.n(300, 3000)):
         c = c04.rand_case(rng, memos=["True", "recursive_lit"], maxdim=7)
         yield c
+    # large radii: a single (2r+1)^2 block of several KiB (size thresholds of a cache)
+    for (R, C, r, dt) in ([(24, 23, 11, "int64"), (34, 33, 16, "int32")] if ctx.tier == "quick" else [(24, 23, 11, "int64"), (34, 33, 16, "int32"), (24, 24, 11, "float64"), (48, 47, 23, "int16")]):
+        g = [[0] * C for _ in range(R)]
+        g[R // 2][C // 2] = 1
+        g[1][2] = 1
+        for memo in ("recursive_lit", "True"):
+            yield dict(kind="ev2", big=1, hist=[g], dtype=dt, scale=1, r=r, nb="moore", rule="hash:2:3:1:0", T=3, memo=memo)
     for _ in range(ctx.n(80, 800)):
         # float states incl. negatives under the von Neumann mask: the key must not see the masked corners (not even their sign)
         c = c04.rand_case(rng, memos=["True"], maxdim=6)
@@ -27,10 +34,13 @@ def gen(ctx):
 
 
 def line(c):
-    return ev2.line(c)
+    return None if c.get("big") else ev2.line(c)
 
 
 def impl(c):
+    if c.get("big"):
+        run = ev2.run_impl(c)
+        return "ok big calls=%d" % len(run.rule.log)
     return ev2.answer(c, ev2.run_impl(c))
 
 
@@ -83,6 +93,8 @@ def oracle(c):
 def nontrivial(c, ans):
     if not ans.startswith("ok"):
         return False
+    if c.get("big"):
+        return True
     g = c["hist"][-1]
     grids = ans.split(" ")[1].count("|") + 1
     return c04.ncalls(ans) < len(g) * len(g[0]) * (grids - len(c["hist"]))
